@@ -31,15 +31,18 @@ Qed.
 
 Lemma frame_step_sound (s : ds) (id : N) : res_sound (snd (frame_step s id)).
 Proof.
-  unfold DictIdModel.frame_step. destruct (get_dd D (select s id)) as [s2 o]. cbn. apply id_ok_sound.
+  unfold DictIdModel.frame_step. destruct (ds_uses D (select s id));
+    [destruct (get_dd D (select s id)) as [s2 o]; cbn; apply id_ok_sound
+    |cbn; apply id_ok_sound
+    |destruct (get_dd D (select s id)) as [s2 o]; cbn; apply id_ok_sound].
 Qed.
 
 Lemma oneshot_loop_sound (ids : list N) : forall (s : ds) cur, Forall res_sound (snd (oneshot_loop s cur ids)).
 Proof.
   induction ids as [|id r IH]; intros s cur; cbn; [constructor|].
-  set (cur' := match cur, ds_dict D s with
-               | Some _, Some _ => if set_active D s then match set_get (ds_set D s) id with Some f => Some f | None => cur end else cur
-               | _, _ => cur end).
+  set (cur' := match cur with
+               | Some _ => if set_active D s && applies D s then match set_get (ds_set D s) id with Some f => Some f | None => cur end else cur
+               | None => cur end).
   destruct (id_ok (id_of cur') id) eqn:Eok.
   - specialize (IH (select (with_loaded D s (id_of cur')) id) cur').
     destruct (oneshot_loop _ cur' r) as [s2 l]. cbn in *. constructor; [|exact IH].
@@ -64,18 +67,19 @@ Qed.
 (* ---------- 2. the selection is idempotent ; the set holds one DDict per ID ---------- *)
 Lemma select_loaded (s : ds) n id : select (with_loaded D s n) id = with_loaded D (select s id) n.
 Proof.
-  unfold DictIdModel.select, set_active, live. destruct s as [d u m l ld]; cbn.
-  destruct (m && negb match l with [] => true | _ => false end && match u with DontUse => false | _ => true end); [|reflexivity].
-  destruct d; [|reflexivity]. destruct (set_get l id); reflexivity.
+  unfold DictIdModel.select, set_active, applies, live. destruct s as [d u lo m l ld]; cbn.
+  match goal with |- (if ?c then _ else _) = _ => destruct c end; [|reflexivity].
+  destruct (set_get l id); reflexivity.
 Qed.
 
 Lemma select_idem (s : ds) id : select (select s id) id = select s id.
 Proof.
-  unfold DictIdModel.select, set_active, live. destruct s as [d u m l ld]; cbn.
-  destruct (m && negb match l with [] => true | _ => false end) eqn:Ea; cbn; [|rewrite Ea; reflexivity].
-  destruct u; cbn; try (rewrite Ea; reflexivity);
-    (destruct d as [x|]; [|cbn; rewrite Ea; reflexivity]);
-    (destruct (set_get l id) as [f|] eqn:Eg; cbn; rewrite Ea; cbn; rewrite ?Eg; reflexivity).
+  unfold DictIdModel.select at 2 3. destruct (set_active D s && applies D s) eqn:Ea.
+  - destruct (set_get (ds_set D s) id) as [f|] eqn:Eg.
+    + unfold DictIdModel.select, set_active, applies, live. cbn [with_dict ds_dict ds_uses ds_local ds_mdd ds_set].
+      apply andb_true_iff in Ea. destruct Ea as [Ea _]. unfold set_active in Ea. rewrite Ea. cbn. rewrite Eg. reflexivity.
+    + unfold DictIdModel.select. rewrite Ea, Eg. reflexivity.
+  - unfold DictIdModel.select. rewrite Ea. reflexivity.
 Qed.
 
 Definition uniq (l : list D) : Prop := NoDup (map did l).
@@ -118,7 +122,7 @@ Qed.
 Lemma ds_step_uniq (s : ds) (op : iop) : uniq (ds_set D s) -> uniq (ds_set D (fst (ds_step s op))).
 Proof.
   assert (Hsel : forall (t : ds) id, ds_set D (select t id) = ds_set D t).
-  { intros t id. unfold DictIdModel.select. destruct (set_active D t && live D t); [|reflexivity]. destruct (ds_dict D t); [|reflexivity].
+  { intros t id. unfold DictIdModel.select. destruct (set_active D t && applies D t); [|reflexivity].
     destruct (set_get (ds_set D t) id); reflexivity. }
   assert (Hget : forall t : ds, ds_set D (fst (get_dd D t)) = ds_set D t).
   { intros t. unfold get_dd. destruct (ds_uses D t); reflexivity. }
@@ -135,8 +139,10 @@ Proof.
   - exact Hu.
   - exact Hu.
   - constructor.
-  - unfold DictIdModel.frame_step. pose proof (Hget (select s id)) as Hg. destruct (get_dd D (select s id)) as [s2 o]. cbn in *.
-    rewrite Hsel. cbn. rewrite Hg, Hsel. exact Hu.
+  - unfold DictIdModel.frame_step. pose proof (Hget (select s id)) as Hg. destruct (ds_uses D (select s id)).
+    + destruct (get_dd D (select s id)) as [s2 o]. cbn in *. rewrite Hsel. cbn. rewrite Hg, Hsel. exact Hu.
+    + cbn [fst]. match goal with |- context [if ?c then _ else _] => destruct c end; cbn [with_dict ds_set]; rewrite Hsel; cbn; rewrite Hsel; exact Hu.
+    + destruct (get_dd D (select s id)) as [s2 o]. cbn in *. rewrite Hsel. cbn. rewrite Hg, Hsel. exact Hu.
   - exact Hu.
   - pose proof (Hget s) as Hg. destruct (get_dd D s) as [s1 o]. cbn in *. rewrite Hloop, Hg. exact Hu.
 Qed.
@@ -155,16 +161,16 @@ Proof. intro Hm. cbn. rewrite Hm. left. reflexivity. Qed.
 
 Theorem multi_ddict_selects (s : ds) (id : N) (f x : D) :
   ds_mdd D s = true -> uniq (ds_set D s) -> In f (ds_set D s) -> did f = id -> id <> 0 ->
-  ds_dict D s = Some x -> ds_uses D s = UseIndef ->
-  frame_step s id = (with_loaded D (with_dict D s (Some f) UseIndef) id, (Some f, id, true)).
+  ds_dict D s = Some x -> ds_uses D s = UseIndef -> ds_local D s = false ->
+  frame_step s id = (with_loaded D (with_dict D s (Some f) UseIndef false) id, (Some f, id, true)).
 Proof.
-  intros Hm Hu Hin Hd Hn Hx Hi. subst id.
+  intros Hm Hu Hin Hd Hn Hx Hi Hl. subst id.
   pose proof (uniq_get _ f Hu Hin Hn) as Hg.
   assert (Ha : set_active D s = true).
   { unfold set_active. rewrite Hm. destruct (ds_set D s); [contradiction|reflexivity]. }
-  assert (Hs1 : select s (did f) = with_dict D s (Some f) UseIndef).
-  { unfold DictIdModel.select, live. rewrite Ha, Hi, Hx, Hg. reflexivity. }
-  unfold DictIdModel.frame_step. rewrite Hs1. cbn [get_dd with_dict ds_uses ds_dict].
+  assert (Hs1 : select s (did f) = with_dict D s (Some f) UseIndef false).
+  { unfold DictIdModel.select, applies, live. rewrite Ha, Hi, Hx, Hl, Hg. reflexivity. }
+  unfold DictIdModel.frame_step. rewrite Hs1. cbn [get_dd with_dict ds_uses ds_dict ds_local].
   rewrite select_loaded. rewrite <- Hs1 at 1. rewrite select_idem, Hs1. cbn [id_of].
   unfold id_ok. rewrite N.eqb_refl, orb_true_r. reflexivity.
 Qed.
@@ -176,10 +182,41 @@ Theorem multi_ddict_keeps (s : ds) (id : N) (x : D) :
 Proof.
   intros Hg Hx Hi.
   assert (Hs1 : forall t : ds, ds_set D t = ds_set D s -> select t id = t).
-  { intros t Ht. unfold DictIdModel.select. destruct (set_active D t && live D t); [|reflexivity]. destruct (ds_dict D t); [|reflexivity].
+  { intros t Ht. unfold DictIdModel.select. destruct (set_active D t && applies D t); [|reflexivity].
     rewrite Ht, Hg. reflexivity. }
   unfold DictIdModel.frame_step. rewrite (Hs1 s eq_refl). unfold get_dd. rewrite Hi, Hx. cbn [id_of].
   rewrite (Hs1 (with_loaded D s (did x)) eq_refl). reflexivity.
+Qed.
+
+(* a dictionary loaded into the context (ZSTD_DCtx_loadDictionary and variants) is never replaced by the selection : every streamed frame is
+   decoded from it, whatever it names and whatever is referenced (fix d0ddbff) *)
+Theorem loaded_dict_kept (s : ds) (id : N) (x : D) :
+  ds_local D s = true -> ds_dict D s = Some x -> ds_uses D s = UseIndef ->
+  frame_step s id = (with_loaded D s (did x), (Some x, id, id_ok (did x) id)).
+Proof.
+  intros Hl Hx Hi.
+  assert (Hs1 : forall t : ds, ds_local D t = true -> select t id = t).
+  { intros t Ht. unfold DictIdModel.select, applies. rewrite Ht. destruct (ds_dict D t); rewrite ?andb_false_r; reflexivity. }
+  unfold DictIdModel.frame_step. rewrite (Hs1 s Hl). unfold get_dd. rewrite Hi, Hx. cbn [id_of].
+  rewrite (Hs1 (with_loaded D s (did x)) Hl). reflexivity.
+Qed.
+
+(* a pending single-use prefix : the next streamed frame is decoded from it ; accepted -> the prefix is used up (dictUses = dont_use,
+   pointer left until the next fetch) ; refused (the frame names a dictionary the prefix is not) -> the prefix stays pending,
+   nothing but dctx->dictID has changed (fix b15fdb6) *)
+Theorem prefix_frame (s : ds) (id : N) :
+  ds_uses D s = UseOnce -> ds_local D s = true ->
+  frame_step s id =
+    (if id_ok (id_of (ds_dict D s)) id
+     then with_dict D (with_loaded D s (id_of (ds_dict D s))) (ds_dict D s) DontUse true
+     else with_loaded D s (id_of (ds_dict D s)),
+     (ds_dict D s, id, id_ok (id_of (ds_dict D s)) id)).
+Proof.
+  intros Hu Hl.
+  assert (Hs1 : forall t : ds, ds_local D t = true -> select t id = t).
+  { intros t Ht. unfold DictIdModel.select, applies. rewrite Ht. destruct (ds_dict D t); rewrite ?andb_false_r; reflexivity. }
+  unfold DictIdModel.frame_step. rewrite (Hs1 s Hl), Hu. rewrite (Hs1 (with_loaded D s (id_of (ds_dict D s))) Hl).
+  destruct (id_ok (id_of (ds_dict D s)) id); [|reflexivity]. cbn [with_loaded ds_dict ds_local]. rewrite Hl. reflexivity.
 Qed.
 
 (* ---------- 4. frame by frame through ZSTD_decompressStream = one ZSTD_decompressDCtx call ---------- *)
@@ -187,33 +224,33 @@ Qed.
    call).  Before fix a891479 a second hypothesis was needed - no used-up prefix has left its pointer behind (dictUses == dont_use
    with ddict != NULL) : see the refutation examples at the end of this file *)
 Definition settled (s : ds) (cur : option D) : Prop :=
-  (ds_uses D s = UseIndef /\ cur = ds_dict D s) \/ (ds_uses D s = DontUse /\ ds_dict D s = None /\ cur = None).
+  (ds_uses D s = UseIndef /\ cur = ds_dict D s) \/ (ds_uses D s = DontUse /\ ds_dict D s = None /\ ds_local D s = false /\ cur = None).
 
 Lemma select_uses (s : ds) id : ds_uses D s = UseIndef -> ds_uses D (select s id) = UseIndef.
 Proof.
-  intro H. unfold DictIdModel.select. destruct (set_active D s && live D s); [|exact H]. destruct (ds_dict D s); [|exact H].
+  intro H. unfold DictIdModel.select. destruct (set_active D s && applies D s); [|exact H].
   destruct (set_get (ds_set D s) id); [reflexivity|exact H].
 Qed.
 
 Lemma select_none (s : ds) id : ds_dict D s = None -> select s id = s.
-Proof. intro H. unfold DictIdModel.select. destruct (set_active D s && live D s); [|reflexivity]. rewrite H. reflexivity. Qed.
+Proof. intro H. unfold DictIdModel.select, applies. rewrite H, andb_false_r. reflexivity. Qed.
 
 Lemma select_dead (s : ds) id : ds_uses D s = DontUse -> select s id = s.
-Proof. intro H. unfold DictIdModel.select, live. rewrite H, andb_false_r. reflexivity. Qed.
+Proof. intro H. unfold DictIdModel.select, applies, live. rewrite H. destruct (ds_dict D s); cbn; rewrite andb_false_r; reflexivity. Qed.
 
 Lemma loop_eq_stream (ids : list N) : forall (s : ds) cur, settled s cur -> oneshot_loop s cur ids = stream_frames s ids.
 Proof.
   induction ids as [|id r IH]; intros s cur Hs; [reflexivity|].
   cbn [DictIdModel.oneshot_loop DictIdModel.stream_frames]. unfold DictIdModel.frame_step.
-  destruct Hs as [[Hu Hc]|(Hu & Hd & Hc)].
+  destruct Hs as [[Hu Hc]|(Hu & Hd & Hlo & Hc)].
   - (* a dictionary for indefinite use, or none *)
     subst cur.
-    assert (Hcur : match ds_dict D s, ds_dict D s with
-                   | Some _, Some _ => if set_active D s then match set_get (ds_set D s) id with Some f => Some f | None => ds_dict D s end else ds_dict D s
-                   | _, _ => ds_dict D s end = ds_dict D (select s id)).
-    { unfold DictIdModel.select, live. rewrite Hu, andb_true_r. destruct (ds_dict D s) as [x|] eqn:Ed.
-      - destruct (set_active D s); [|rewrite Ed; reflexivity]. destruct (set_get (ds_set D s) id); [reflexivity|rewrite Ed; reflexivity].
-      - destruct (set_active D s); rewrite ?Ed; reflexivity. }
+    assert (Hcur : match ds_dict D s with
+                   | Some _ => if set_active D s && applies D s then match set_get (ds_set D s) id with Some f => Some f | None => ds_dict D s end else ds_dict D s
+                   | None => ds_dict D s end = ds_dict D (select s id)).
+    { unfold DictIdModel.select. destruct (ds_dict D s) as [x|] eqn:Ed.
+      - destruct (set_active D s && applies D s); [|rewrite Ed; reflexivity]. destruct (set_get (ds_set D s) id); [reflexivity|rewrite Ed; reflexivity].
+      - unfold applies. rewrite Ed, andb_false_r. symmetry; exact Ed. }
     rewrite Hcur. unfold get_dd. rewrite (select_uses s id Hu).
     rewrite (select_loaded (select s id)), select_idem, <- select_loaded.
     cbn [snd]. destruct (id_ok (id_of (ds_dict D (select s id))) id); [|reflexivity].
@@ -221,7 +258,7 @@ Proof.
     left. rewrite select_loaded. cbn. split; [apply select_uses; exact Hu|reflexivity].
   - subst cur. rewrite (select_none s id Hd). unfold get_dd. rewrite Hu.
     assert (Ec : clear_dict D s = s).
-    { destruct s as [d u m l ld]. cbn in Hu, Hd. subst. reflexivity. }
+    { destruct s as [d u lo m l ld]. cbn in Hu, Hd, Hlo. subst. reflexivity. }
     rewrite Ec. cbn [id_of snd]. rewrite (select_none (with_loaded D s 0) id Hd).
     destruct (id_ok 0 id); [|reflexivity].
     rewrite (IH (with_loaded D s 0) None); [reflexivity|]. right. cbn. auto.
@@ -264,7 +301,7 @@ Definition dicts (l : list (fres D)) : list (option D) := map (fun r => fst (fst
 
 Lemma select_zero (s : ds) : select s 0 = s.
 Proof.
-  unfold DictIdModel.select. destruct (set_active D s && live D s); [|reflexivity]. destruct (ds_dict D s); reflexivity.
+  unfold DictIdModel.select. destruct (set_active D s && applies D s); reflexivity.
 Qed.
 
 Lemma loop_zero (ids : list N) : Forall (fun id => id = 0) ids -> forall (s : ds) cur,
@@ -272,10 +309,10 @@ Lemma loop_zero (ids : list N) : Forall (fun id => id = 0) ids -> forall (s : ds
 Proof.
   induction 1 as [|id r Hid _ IH]; intros s cur; [split; reflexivity|]. subst id.
   cbn [DictIdModel.oneshot_loop].
-  assert (Ecur : match cur, ds_dict D s with
-                 | Some _, Some _ => if set_active D s then match set_get (ds_set D s) 0 with Some f => Some f | None => cur end else cur
-                 | _, _ => cur end = cur).
-  { destruct cur; [|reflexivity]. destruct (ds_dict D s); [|reflexivity]. destruct (set_active D s); reflexivity. }
+  assert (Ecur : match cur with
+                 | Some _ => if set_active D s && applies D s then match set_get (ds_set D s) 0 with Some f => Some f | None => cur end else cur
+                 | None => cur end = cur).
+  { destruct cur; [|reflexivity]. destruct (set_active D s && applies D s); reflexivity. }
   rewrite Ecur. unfold id_ok at 1. cbn [N.eqb orb]. rewrite select_zero.
   destruct (IH (with_loaded D s (id_of cur)) cur) as [Hp Hl].
   destruct (oneshot_loop (with_loaded D s (id_of cur)) cur r) as [s2 l]. cbn in *. split; [exact Hp|]. f_equal. exact Hl.
@@ -291,11 +328,11 @@ Proof.
   - split; reflexivity.
   - split; reflexivity.
   - split; reflexivity.
-  - cbn in Hz. subst id. unfold DictIdModel.frame_step. rewrite select_zero. destruct s as [d0 u m l ld].
+  - cbn in Hz. subst id. unfold DictIdModel.frame_step. rewrite select_zero. destruct s as [d0 u lo m l ld].
     unfold get_dd, get_ddict, proj. cbn [dd_uses dd_dict ds_uses ds_dict].
-    destruct u; cbn [clear_dict with_dict with_loaded ds_uses ds_dict ds_mdd ds_set ds_loaded]; rewrite select_zero; split; reflexivity.
+    destruct u; cbn [clear_dict with_dict with_loaded ds_uses ds_dict ds_local ds_mdd ds_set ds_loaded]; rewrite select_zero; split; reflexivity.
   - split; reflexivity.
-  - cbn in Hz. destruct s as [d0 u m l ld]. unfold get_dd, get_ddict, proj. cbn [dd_uses dd_dict ds_uses ds_dict].
+  - cbn in Hz. destruct s as [d0 u lo m l ld]. unfold get_dd, get_ddict, proj. cbn [dd_uses dd_dict ds_uses ds_dict].
     destruct u; cbv beta iota;
       match goal with |- context [oneshot_loop ?a ?b ids] => destruct (loop_zero ids Hz a b) as [Hp Hl]; unfold proj in Hp; rewrite Hp, Hl end;
       split; reflexivity.
@@ -342,7 +379,7 @@ Proof. reflexivity. Qed.
 (* REFUTATION of the pre-fix code : with the selection that tests dctx->ddict alone (select_stale) the state left by the used-up
    prefix selects DDict 11 in the streaming path, which the single call on the same state (ZSTD_getDDict first) never does *)
 Example stale_selection_differs :
-  let s := {| ds_dict := Some 7; ds_uses := DontUse; ds_mdd := true; ds_set := [11]; ds_loaded := 0 |} in
+  let s := {| ds_dict := Some 7; ds_uses := DontUse; ds_local := true; ds_mdd := true; ds_set := [11]; ds_loaded := 0 |} in
   ds_dict N (select_stale N (fun d => if N.eqb d 7 then 0 else d) s 11) = Some 11 /\
   ds_dict N (select N (fun d => if N.eqb d 7 then 0 else d) s 11) = Some 7 /\
   snd (ds_step N (fun d => if N.eqb d 7 then 0 else d) s (IOneShot N [11])) = [(None, 11, false)].
